@@ -79,6 +79,15 @@ pub fn check(case: &Case) -> Verdict {
         if (cmp.trait_eq)(qa, qb) != eq || (cmp.trait_partial_cmp)(qa, qb) != pc {
             fail!("{}: trait-level eq/partial_cmp disagree with the operators", note);
         }
+        // a value against itself, both operands being the same object
+        #[allow(clippy::eq_op)]
+        {
+            let (e, n, te, p) = (cmp.same_place)(qa);
+            let own = PartialOrd::partial_cmp(&a, &a);
+            if e != (a == a) || n == e || te != e || p != own {
+                fail!("{}: the first value compared with itself in place: == {}, != {}, trait eq {}, partial_cmp {:?}; its amount gives == {} and {:?}", note, e, n, te, p, a == a, own);
+            }
+        }
         if same {
             let own = PartialOrd::partial_cmp(&a, &b);
             if pc != own {
